@@ -27,7 +27,7 @@ def jobs(tier: str):
             yield compose.corpus_job(name, prog, inp, out, universe, consts, cfgs, "C02/corpus")
 
     def mk(j, c0):
-        fam = j["family"].split("/")[0]
+        fam = j["family"].split("/")[0].split("~")[0]
         inp = c0["inp"]
         if inp != "auto":
             upreds = sorted({(f.split("(")[0], f.count(",") + 1 if "(" in f else 0) for f in j["universe"]})
@@ -45,9 +45,9 @@ def jobs(tier: str):
 
     keep1 = slice_keep(tier)
     fams = ["C05", "C08", "C09", "C10", "C11", "C12", "C13", "C14", "C15"]
-    yield from compose.remap(compose.family_jobs(fams, tier), "C02", mk,
+    yield from compose.remap(compose.family_jobs(fams, tier, variants=20), "C02", mk,
                              keep=lambda j: compose.has_objective(j["prog"]) and (not quick or keep1(j) or
-                                                                                   j["family"].split("/")[0] in ("C13",)))
+                                                                                   j["family"].split("/")[0].split("~")[0] in ("C13",)))
 
 
 def main(tier: str, seed: int) -> int:
